@@ -72,6 +72,8 @@ def run(tier, seed, replay=None):
         cmds += ["%s skip 150 %d 5 | %s" % (h1, seed * 100 + 95 + i, runner) for i in range(2)]
         cmds += ["%s opt 250 %d 4 | %s" % (h1, seed * 100 + 97 + i, runner) for i in range(2)]
         cmds += ["%s wide 120 %d 3 | %s" % (h1, seed * 100 + 99, runner)]
+        cmds += ["%s insens 90 %d 4 | %s" % (h1, seed * 100 + 60, runner), "%s insens 60 %d 4 | %s" % (h2, seed * 100 + 61, runner)]
+        cmds += ["%s zrep 220 %d 5 | %s" % (h1, seed * 100 + 62, runner), "%s zrep 120 %d 5 | %s" % (h2, seed * 100 + 63, runner)]
     else:
         cmds = ["%s random 1500 %d 5 | %s" % (h1, seed * 100 + i, runner) for i in range(9)]
         cmds += ["%s random 1500 %d 5 | %s" % (h2, seed * 100 + 50 + i, runner) for i in range(6)]
@@ -80,6 +82,8 @@ def run(tier, seed, replay=None):
         cmds += ["%s skip 3000 %d 6 | %s" % (h1, seed * 100 + 95 + i, runner) for i in range(2)]
         cmds += ["%s opt 4000 %d 5 | %s" % (h1, seed * 100 + 97 + i, runner) for i in range(2)]
         cmds += ["%s wide 2000 %d 4 | %s" % (h1, seed * 100 + 99, runner)]
+        cmds += ["%s insens 1200 %d 4 | %s" % (h1, seed * 100 + 60, runner), "%s insens 800 %d 4 | %s" % (h2, seed * 100 + 61, runner)]
+        cmds += ["%s zrep 3000 %d 6 | %s" % (h1, seed * 100 + 62, runner), "%s zrep 1500 %d 6 | %s" % (h2, seed * 100 + 63, runner)]
     outs = run_pipeline(cmds, timeout=3300)
     mism, stats, known_lines = [], {}, []
     for (rc, out), c in zip(outs, cmds):
@@ -115,6 +119,47 @@ def run(tier, seed, replay=None):
             res.violation("VM tags a node that the tagged expression did not produce", {"theorem_or_correspondence": "C01 oracle", "count": stats["known_nodetag"]})
     spec_m = [m for m in mism if m["kind"] == "spec"]
     model_m = [m for m in mism if m["kind"] == "model"]
+
+    # Escalated search (only after something broke and the runs above gave no input on which the documented semantics is violated):
+    # (1) the grammars on which implementation and model differ are run again on more and longer inputs (C01_FOCUS in c01.rs);
+    # (2) larger batches of every generator with fresh seeds.  Only `spec` mismatches (real Vm vs extracted Spec) count as failing inputs.
+    escalation = None
+    if (model_m or (thm is not None and not thm["ok"])) and not spec_m:
+        escalation = {"focus_grammars": 0, "focus_cases": 0, "batch_cases": 0, "spec_mismatches": 0}
+        by_cmd = {}
+        for m in model_m:
+            g = re.search(r" g=(.*?) og=", m["case"])
+            if g and m.get("cmd"):
+                by_cmd.setdefault(m["cmd"], [])
+                if g.group(1) not in by_cmd[m["cmd"]]:
+                    by_cmd[m["cmd"]].append(g.group(1))
+        ecmds = []
+        os.makedirs(REPLAYS, exist_ok=True)
+        for c, gl in list(by_cmd.items())[:10]:
+            gl = gl[:15]
+            fp = os.path.join(REPLAYS, "C01-focus-%s.txt" % hashlib.sha1((c + "\n".join(gl)).encode()).hexdigest()[:10])
+            with open(fp, "w") as f:
+                f.write("\n".join(gl) + "\n")
+            escalation["focus_grammars"] += len(gl)
+            ecmds.append("C01_FOCUS=%s %s" % (fp, c))
+        nfocus = len(ecmds)
+        big = 4 if tier == "quick" else 12
+        ecmds += ["%s zrep %d %d 6 | %s" % (h, 400 * big, seed * 100 + 1000 + i, runner) for i, h in enumerate((h1, h1, h2))]
+        ecmds += ["%s insens %d %d 4 | %s" % (h, 150 * big, seed * 100 + 1010 + i, runner) for i, h in enumerate((h1, h1, h2))]
+        ecmds += ["%s stack %d %d 6 | %s" % (h, 300 * big, seed * 100 + 1020 + i, runner) for i, h in enumerate((h1, h1, h2))]
+        ecmds += ["%s random %d %d 5 | %s" % (h, 120 * big, seed * 100 + 1030 + i, runner) for i, h in enumerate((h1, h1, h2))]
+        ecmds += ["%s skip %d %d 6 | %s" % (h1, 200 * big, seed * 100 + 1040, runner), "%s opt %d %d 5 | %s" % (h1, 200 * big, seed * 100 + 1041, runner),
+                  "%s wide %d %d 4 | %s" % (h1, 100 * big, seed * 100 + 1042, runner)]
+        eouts = run_pipeline(ecmds, timeout=1500)
+        for i, ((rc, out), c) in enumerate(zip(eouts, ecmds)):
+            m, st, _ = parse_runner_output(out)
+            escalation["focus_cases" if i < nfocus else "batch_cases"] += st.get("cases", 0)
+            for x in m:
+                x["cmd"] = c
+                if x["kind"] == "spec":
+                    spec_m.append(x)
+        escalation["spec_mismatches"] = len(spec_m)
+        log("C01 escalated search: %s" % json.dumps(escalation))
     other_m = [m for m in mism if m["kind"] not in ("spec", "model")]
     if spec_m:
         w = min(spec_m, key=lambda m: len(m["case"]))
@@ -139,10 +184,11 @@ def run(tier, seed, replay=None):
         "distinct_nontrivial": stats.get("distinct_nontrivial", 0),
         "rule": "random grammars of 2-4 rules r0..r3 (calls to higher-numbered rules only) over all operators, the five rule types, built-ins, stack operations, bounded repetitions, "
                 "optional WHITESPACE/COMMENT of several modifiers (tags and PUSH_LITERAL in the grammar-extras half), written in pest syntax and compiled by the real pest_meta; "
-                "every accepted grammar x every input of length <= 4 (quick) / 5 (thorough) over {x, y, space}; plus stack-heavy grammars (two PUSHes, then bodies that POP/DROP/PEEK/PEEK_ALL/PEEK[i..j] under choices, optionals and repetitions) x all inputs <= 5/6 over {x, y}; plus skip-until grammars ((!(a | b | ..) ~ ANY)* with 1-4 stop literals sharing first bytes and prefixes, rule references inlined into the stop set, atomic and non-atomic rules) x all inputs <= 5/6 over {x, y}; plus optimizer-shaped grammars (common prefixes/tails of a choice, (x ~ y)* ~ x, literal runs, left-nested chains in rules of every modifier, called from every kind of rule, with WHITESPACE/COMMENT) x all inputs <= 4/5 over {x, y, space, #}; plus random and skip-until grammars on all inputs <= 3/4 over characters of every UTF-8 width {x, é, €, U+1F600, U+10FFFF}. Non-trivial = the real parse succeeded with at least one pair; grammars are distinct by construction of the seeds.",
+                "every accepted grammar x every input of length <= 4 (quick) / 5 (thorough) over {x, y, space}; plus stack-heavy grammars (two PUSHes, then bodies that POP/DROP/PEEK/PEEK_ALL/PEEK[i..j] under choices, optionals and repetitions) x all inputs <= 5/6 over {x, y}; plus skip-until grammars ((!(a | b | ..) ~ ANY)* with 1-4 stop literals sharing first bytes and prefixes, rule references inlined into the stop set, atomic and non-atomic rules) x all inputs <= 5/6 over {x, y}; plus optimizer-shaped grammars (common prefixes/tails of a choice, (x ~ y)* ~ x, literal runs, left-nested chains in rules of every modifier, called from every kind of rule, with WHITESPACE/COMMENT) x all inputs <= 4/5 over {x, y, space, #}; plus random and skip-until grammars on all inputs <= 3/4 over characters of every UTF-8 width {x, é, €, U+1F600, U+10FFFF}; plus case-insensitive literals over ASCII and non-ASCII cased letters (é/É ä/Ä ω/Ω я/Я ß/ẞ i/İ k/KELVIN s/ſ σ/Σ/ς ǆ/ǅ: alone, in ordered choices against the other case, under repetitions, in skip-until stop sets, captured and re-matched) x all inputs <= 4 over the alphabet derived from the grammar's literals and their other case (at most 6 characters, at most 700 inputs per grammar); plus zero-length stack-changing repetitions (DROP*, POP* over empty captures, (&'x' ~ DROP)*, (POP | DROP)*, a rule that drops; also + and {n,}) below 2-4 pushes followed by a stack reader (PEEK_ALL, POP_ALL, PEEK[..], !DROP, ..) x all inputs <= 5/6 over {x, y}. Non-trivial = the real parse succeeded with at least one pair; grammars are distinct by construction of the seeds.",
         "samples": ["x=0 r=r0 in=787920 g=(r0 n (seq (rep (id r1)) (neg (id ANY))));(r1 a (cho (str 78) (str 79)));(WHITESPACE s (str 20))"],
         "grammars_accepted": stats.get("grammars", 0), "grammars_rejected": stats.get("rejected", 0), "ok_parses": stats.get("ok", 0),
         "real_panics": stats.get("panics", 0), "call_limit_hits": stats.get("limits", 0), "spec_undecided": stats.get("spec_undecided", 0),
+        "escalated_search": escalation if escalation is not None else "not run (nothing broke)",
         "runner_cases": stats.get("cases", 0), "mismatches": len(mism), "runner_timeouts": stats.get("timeouts", 0),
     })
     return res.finish()
